@@ -671,8 +671,12 @@ func (p *symptr) load(fr *frame, t types.Type) value {
 	if len(p.elems) == 0 {
 		panic(pathAbort{"load from empty symbolic index"})
 	}
-	acc := toTermV(p.elems[len(p.elems)-1])
-	for k := len(p.elems) - 2; k >= 0; k-- {
+	n := len(p.elems)
+	if p.idx.bits < 31 && n > 1<<uint(p.idx.bits) {
+		n = 1 << uint(p.idx.bits) // indices beyond the index type's range are unreachable
+	}
+	acc := toTermV(p.elems[n-1])
+	for k := n - 2; k >= 0; k-- {
 		acc = iteTerm(idxEq(p.idx, k), toTermV(p.elems[k]), acc)
 	}
 	return fr.i.ex.named(acc)
@@ -681,6 +685,9 @@ func (p *symptr) load(fr *frame, t types.Type) value {
 func (p *symptr) store(fr *frame, v value) {
 	nv := toTermV(v)
 	for k := range p.elems {
+		if p.idx.bits < 31 && k >= 1<<uint(p.idx.bits) {
+			break
+		}
 		old := toTermV(p.elems[k])
 		fr.i.ex.logStore(&p.elems[k])
 		p.elems[k] = fr.i.ex.named(iteTerm(idxEq(p.idx, k), nv, old))
